@@ -181,3 +181,87 @@ package main
 //@   property C15
 //@   trusted bundled x/tools type hasher; only the dependency set of its struct case is an obligation here
 //@   case_calls *types.Struct: NumFields, Field, Anonymous, Name, typeutil_hashString
+//@ end
+
+// ---- C07: every cache reader treats an unreadable entry as a miss ----
+
+//@ ghost anyErr bool
+//@ ghost lastGetErr bool
+//@ ghost lastHasDep bool
+//@ ghost merged bool
+//@ ghost computeCalled bool
+
+//@ hookset cachemiss
+//@ hook after var:openCache() (c, err)
+//@   if err != nil { anyErr = true }
+//@ hook after (*github.com/rogpeppe/go-internal/cache.Cache).GetFile(c, id) (file, entry, err)
+//@   lastGetErr = err != nil
+//@   merged = false
+//@   if err != nil { anyErr = true }
+//@ hook after os.ReadFile(name) (data, err)
+//@   if err != nil { anyErr = true }
+//@ hook after (*mvdan.cc/garble.goAsmNames).UnmarshalMsg(z, b) (o, err)
+//@   if err != nil { anyErr = true }
+//@ hook after (*mvdan.cc/garble.listedPackage).hasDep(l, path) (r)
+//@   lastHasDep = r
+//@ hook before (*mvdan.cc/garble.pkgCache).CopyFrom(c, other)
+//@   merged = true
+//@ hook before mvdan.cc/garble.computePkgCache(a, b, c, d, e, f)
+//@   computeCalled = true
+//@   assert("recompute-only-after-a-miss", lastGetErr)
+//@ hook after value() (err)
+//@   assert("hit-is-merged", err != nil || lastGetErr || merged)
+//@   assert("missed-dependency-that-imports-reflect-is-recomputed-and-merged", err != nil || !lastGetErr || !lastHasDep || merged)
+//@ end
+
+//@ hookset hasher
+//@ hook after crypto/sha256.New() (h)
+//@   wr[h] = spec.HEmpty()
+//@ end
+
+//@ func loadGoAsmNames
+//@   property C07
+//@   hooks cachemiss
+//@   requires !anyErr
+//@   ensures @any-error-is-a-miss: anyErr ==> isnil(r0)
+//@ end
+
+//@ func loadDebugArtifactsForPkg
+//@   property C07
+//@   hooks cachemiss
+//@   ensures @unreadable-entry-is-a-miss-not-an-error: lastGetErr ==> !r1 && r2 == nil
+//@ end
+
+//@ func debugArtifactsExistForPkg
+//@   property C07
+//@   hooks cachemiss
+//@   ensures @exists-iff-readable: r0 <==> !lastGetErr
+//@ end
+
+//@ func loadPkgCache
+//@   property C07
+//@   hooks cachemiss
+//@   requires !computeCalled && !anyErr && !lastGetErr
+//@   ensures @miss-recomputes: lastGetErr ==> computeCalled
+//@   ensures @hit-does-not-recompute: !lastGetErr ==> !computeCalled
+//@ end
+
+//@ func computePkgCache
+//@   property C07
+//@   hooks cachemiss
+//@   skip safety
+//@ end
+
+//@ func goAsmCacheID
+//@   property C06
+//@   spec hashstate.smt2
+//@   hooks hasher
+//@   ensures @key: forall j int :: 0 <= j && j < 32 ==> r0[j] == spec.ShaByte(spec.HWriteS(spec.HWriteS(spec.HEmpty(), old(str(garbleActionID[:]))), "\x00go-asm-names-v1\x00"), j)
+//@ end
+
+//@ func debugArtifactsCacheID
+//@   property C06
+//@   spec hashstate.smt2
+//@   hooks hasher
+//@   ensures @key: forall j int :: 0 <= j && j < 32 ==> r0[j] == spec.ShaByte(spec.HWriteS(spec.HWriteS(spec.HWriteS(spec.HEmpty(), old(str(garbleActionID[:]))), "\x00debugdir-cache-v1\x00"), kind), j)
+//@ end
